@@ -142,8 +142,8 @@ BuildEntry(x) == Case("entry", x.tol, x.jit, DefaultPolicy, FALSE, EntryP(x), En
 (* ------------------------------------------------------------------ LinearComparer *)
 Cfg(e, p, o, l) == [equals |-> e, proportional |-> p, offset |-> o, linear |-> l]
 LinCfgs == IF Thorough
-           THEN {Cfg(e, p, o, l) : e \in {One, None}, p \in {None, Zero, <<1, 2>>}, o \in {None, <<3, 10>>}, l \in {None, <<1, 5>>, One}}
-                \cup {Cfg(<<1, 2>>, One, None, None)}
+           THEN ({Cfg(e, p, o, l) : e \in {One, None}, p \in {None, Zero, <<1, 2>>}, o \in {None, <<3, 10>>}, l \in {None, <<1, 5>>, One}}
+                 \ {Cfg(None, None, None, None)}) \cup {Cfg(<<1, 2>>, One, None, None)}
            ELSE {DefaultCfg, Cfg(One, None, None, One), Cfg(One, <<1, 2>>, <<3, 10>>, <<1, 5>>), Cfg(One, Zero, None, <<1, 10>>),
                  Cfg(<<1, 2>>, One, None, None), Cfg(None, <<1, 2>>, <<1, 4>>, None), Cfg(None, <<1, 2>>, None, None)}
 LinSamples == << <<G(1), G(2), G(4)>>, <<G(2), G(5), G(8), G(-1)>>, <<G(3), G(3), G(3)>>, <<GZ, GZ, GZ>>, <<G(1), GZ, G(-1)>>,
@@ -151,10 +151,6 @@ LinSamples == << <<G(1), G(2), G(4)>>, <<G(2), G(5), G(8), G(-1)>>, <<G(3), G(3)
 LinAs == {[z |-> G(1), d |-> 1], [z |-> G(2), d |-> 1], [z |-> G(-1), d |-> 1], [z |-> G(1), d |-> 2], [z |-> GZ, d |-> 1], [z |-> I, d |-> 1]}
 LinBs == {[z |-> GZ, d |-> 1], [z |-> G(1), d |-> 1], [z |-> G(-2), d |-> 1]} \cup (IF Thorough THEN {[z |-> G(1), d |-> 2], [z |-> I, d |-> 1]} ELSE {})
 LinSeeds == {[kind |-> "seed", cfg |-> g, xi |-> i, vec |-> v] : g \in LinCfgs, i \in 1..(IF Thorough THEN 9 ELSE 7), v \in BOOLEAN}
-LinCases(s) == {x \in [kind : {"linear"}, cfg : {s.cfg}, xi : {s.xi}, vec : {s.vec}, a : LinAs, b : LinBs, nl : {"none", "sq"},
-                       jit : {0, 1}, tol : {"abs", "pct"}] :
-                  /\ x.nl = "sq" => (x.a = [z |-> G(1), d |-> 1] /\ x.b = [z |-> GZ, d |-> 1])
-                  /\ x.jit # 0 => (x.tol = "abs" /\ x.nl = "none")}
 LinExpEnt(x, s) == LET e == LinSamples[x.xi][s] IN IF x.vec THEN <<e, GAdd(GScale(2, e), G(-1))>> ELSE <<e>>
 LinShape(x) == IF x.vec THEN <<2>> ELSE <<>>
 LinStudentEnt(x, s) == LET e == LinExpEnt(x, s) IN
@@ -165,6 +161,12 @@ BuildLin(x) == LET n == Len(LinSamples[x.xi]) IN
                Case("linear", x.tol, x.jit, DefaultPolicy, FALSE,
                     [s \in 1..n |-> <<V(LinShape(x), LinExpEnt(x, s), 1)>>],
                     [s \in 1..n |-> V(LinShape(x), LinStudentEnt(x, s), LinDen(x))], Flat(Zero), x.cfg)
+
+LinCases(s) == {x \in [kind : {"linear"}, cfg : {s.cfg}, xi : {s.xi}, vec : {s.vec}, a : LinAs, b : LinBs, nl : {"none", "sq"},
+                       jit : {0, 1}, tol : {"abs", "pct"}] :
+                  /\ x.nl = "sq" => (x.a = [z |-> G(1), d |-> 1] /\ x.b = [z |-> GZ, d |-> 1])
+                  /\ x.jit # 0 => (x.tol = "abs" /\ x.nl = "none")
+                  /\ GuardOK(BuildLin(x))}              \* drops the few maps whose samples are nearly (but not) proportional
 
 (* ------------------------------------------------------------------ mismatch policy *)
 Mat22 == Mt(2, 2, <<G(2), G(1), G(1), G(2)>>)
